@@ -243,6 +243,26 @@ fn emit_sharded<T: KS, P: KS>(
         opt(res),
     );
 }
+fn shards_bin(nsh: usize) -> &'static str {
+    match nsh {
+        0 => "p.shards.0",
+        1 => "p.shards.1",
+        2..=3 => "p.shards.2-3",
+        4..=7 => "p.shards.4-7",
+        8..=15 => "p.shards.8-15",
+        16..=31 => "p.shards.16-31",
+        32..=63 => "p.shards.32-63",
+        _ => "p.shards.64+",
+    }
+}
+fn emit_shards<T: KS, P: KS>(out: &mut Out, reads: &[LRead], stranded: bool, perm: &Option<Vec<usize>>, s: &Option<Sharded>) {
+    let res = s.as_ref().map(|s| nu(s.buckets.len()));
+    out.case(
+        shards_bin(s.as_ref().map(|s| s.buckets.len()).unwrap_or(0)),
+        l(vec![nu(T::k()), nu(P::k()), b(stranded), perm_v(perm), V::N(DnaString::max_len() as u128), reads_v(reads)]),
+        opt(res),
+    );
+}
 fn emit_direct<T: KS>(
     out: &mut Out,
     reads: &[LRead],
@@ -326,6 +346,7 @@ fn c04_pair<T: KS + Send + Sync, P: KS>(out: &mut Out, seed: u64, tier: &Tier, c
         }
         // non-trivial: at least two shards and at least one merge across former shard-graph nodes
         out.nt = nsh >= 2 && cross;
+        emit_shards::<T, P>(out, &reads, stranded, &perm, &sh);
         emit_sharded::<T, P>(out, &reads, stranded, &perm, thr, mode, variant, &sh);
         emit_direct::<T>(out, &reads, stranded, thr, mode, 0, &di);
         let gs = sh.map(|s| s.fin);
